@@ -23,6 +23,19 @@
       impl, and from every extern accessor is [path_ok]: a Rust built-in, a declared extern type, or
       the name of a struct/enum item that is in the written file of its parent module;
     - [C13_emitted_size_check_holds]: the emitted size check transmutes between equal sizes.
+    - derives (DefaultClosed.v, EmitDefault.v): [C13_default_closed_in_the_final_registry] -- a
+      defaultable type's fields bottom out, through arrays, in items that are defaultable in the
+      FINAL registry (no pointer, no extern type; an own vftable pointer excludes the marker:
+      [C13_defaultable_own_vftable_not_accepted]); [C13_emitted_default_fields]: on the emitted text,
+      a struct derives Default iff declared defaultable, and then every field (padding included)
+      satisfies Rust's rule for Default ([rust_default_ok]: primitive, array of at most 32 of such,
+      or an item whose OWN emitted definition derives Default -- an enum moreover with exactly one
+      [#[default]] variant, [C08_emitted_enum_default] in C08.v) EXACTLY WHEN it meets the side
+      condition pyxis does not check (array lengths <= 32, no by-value void):
+      [C13_default_padding_refuted] / [C13_default_void_refuted] are accepted inputs that violate
+      it (the 33-byte gap is outside the property's documented fragment; by-value void is finding
+      F9); [C13_emitted_copy_has_clone] (Copy iff copyable, Copy always with Clone) is all that is
+      true about Copy/Clone -- [C13_copy_refuted] is finding F17 on the model.
     Not covered: positions that are not a printed type (Self, size-check fns), fn-pointer types
     repeated inside wrapper bodies, opaque prologue/epilogue text, that extern types are defined on
     the Rust side, items of a root module (no file).
@@ -36,6 +49,8 @@ From PyxisModel Require Import Base Grammar SemTypes Registry Sem SemLemmas Rust
 Import ListNotations.
 
 From PyxisModel Require EmitFnReaders EmitFnShape FilesWhole FilesRead EmitPaths PathsClosed PathsWhole.
+
+From PyxisModel Require DefaultClosed EmitDefault EmitDefaultExamples EmitMarkers.
 
 Theorem C13_paths_resolve_partial : forall R scope, reg_has R ["u8"%string] = true -> forall t t',
   resolve_gtype R scope t = Some t' -> Forall (fun p => reg_has R p = true) (stype_paths t').
@@ -234,3 +249,160 @@ Theorem C13_emitted_extern_values_resolve :
           In p (EmitPaths.type_paths toks) -> PathsWhole.path_ok mods files p)).
 Proof. exact PathsWhole.C13_written_extern_value_paths. Qed.
 Print Assumptions C13_emitted_extern_values_resolve.
+
+Theorem C13_default_closed_in_the_final_registry :
+  forall (order : schedule) (ptr : N) (mods : list (path * gmodule)) (st0 st : sstate),
+    WholeBuild.input_state ptr mods = Ok st0 ->
+    WholeBuild.collision_free (st_reg st0) ->
+    pyxis_resolve order ptr mods = BOk st ->
+    DefaultClosed.gen_nondefault (st_reg st0) (st_reg st) /\
+    (forall (p : path) (it : item) (rs : resolved) (td : type_def),
+     reg_get (st_reg st) p = Some it ->
+     item_resolved it = Some rs ->
+     rs_inner rs = IType td ->
+     td_defaultable td = true -> Forall (DefaultClosed.dflt_region (st_reg st)) (td_regions td)).
+Proof. exact DefaultClosed.final_default_closed. Qed.
+Print Assumptions C13_default_closed_in_the_final_registry.
+
+Theorem C13_emitted_default_fields :
+  forall (order : schedule) (ptr : N) (mods : list (path * gmodule)) (st0 st : sstate)
+      (files : list (string * Sexp.sexp)) (p : path) (it0 : item) (gd : gitemdef) 
+      (td0 : gtypedef),
+    WholeBuild.input_state ptr mods = Ok st0 ->
+    NoDup (map fst mods) ->
+    ~ In [] (map fst mods) ->
+    WholeBuild.collision_free (st_reg st0) ->
+    EmitFinal.keeps_work order ->
+    pyxis_resolve order ptr mods = BOk st ->
+    Emit.write_all st = Ok files ->
+    reg_get (st_reg st0) p = Some it0 ->
+    it_state it0 = Unresolved gd ->
+    gi_inner gd = GIType td0 ->
+    exists
+      (parent : path) (name : string) (f : Sexp.sexp) (items : list Sexp.sexp) 
+    (s : Sexp.sexp) (efs : list EmitReaders.efield),
+      path_parent p = Some parent /\
+      path_last p = Some name /\
+      In (Emit.out_path parent, f) files /\
+      EmitReaders.file_items f = Some items /\
+      EmitReaders.find_struct name items = Some s /\
+      EmitReaders.struct_fields s = Some efs /\
+      EmitReaders.struct_derives s = Some (EmitMarkers.declared_derives (gt_attrs td0)) /\
+      (In "Default"%string (EmitMarkers.declared_derives (gt_attrs td0)) <->
+       EmitLemmas.has_marker "defaultable" (gt_attrs td0) = true) /\
+      (In "Default"%string (EmitMarkers.declared_derives (gt_attrs td0)) ->
+       Forall
+         (fun ef : EmitReaders.efield =>
+          (exists (t : stype) (q : path),
+             EmitReaders.ef_ty ef = Emit.type_tokens t /\
+             Emit.stype_ok t = true /\ defaultable_path t = Some q) /\
+          EmitDefault.rust_default_ok files (EmitReaders.ef_ty ef) =
+          EmitDefault.default_side (EmitReaders.ef_ty ef)) efs).
+Proof. exact EmitDefault.C13_emitted_default_fields. Qed.
+Print Assumptions C13_emitted_default_fields.
+
+Theorem C13_emitted_copy_has_clone :
+  forall (order : schedule) (ptr : N) (mods : list (path * gmodule)) (st0 st : sstate)
+      (files : list (string * Sexp.sexp)) (p : path) (it0 : item) (gd : gitemdef),
+    WholeBuild.input_state ptr mods = Ok st0 ->
+    NoDup (map fst mods) ->
+    WholeBuild.collision_free (st_reg st0) ->
+    EmitFinal.keeps_work order ->
+    pyxis_resolve order ptr mods = BOk st ->
+    Emit.write_all st = Ok files ->
+    reg_get (st_reg st0) p = Some it0 ->
+    it_state it0 = Unresolved gd ->
+    path_parent p <> Some [] ->
+    exists
+      (parent : path) (name : string) (f : Sexp.sexp) (items : list Sexp.sexp) 
+    (e : Sexp.sexp) (l : list string),
+      path_parent p = Some parent /\
+      path_last p = Some name /\
+      In (Emit.out_path parent, f) files /\
+      EmitReaders.file_items f = Some items /\
+      match gi_inner gd with
+      | GIType td0 =>
+          EmitReaders.find_struct name items = Some e /\
+          EmitReaders.struct_derives e = Some l /\
+          (In "Copy"%string l <-> EmitLemmas.has_marker "copyable" (gt_attrs td0) = true)
+      | GIEnum ed0 =>
+          EmitMarkersEnum.find_enum name items = Some e /\
+          EmitReaders.enum_derives e = Some l /\
+          (In "Copy"%string l <-> EmitLemmas.has_marker "copyable" (ged_attrs ed0) = true)
+      end /\ (In "Copy"%string l -> In "Clone"%string l).
+Proof. exact EmitDefault.C13_emitted_copy_has_clone. Qed.
+Print Assumptions C13_emitted_copy_has_clone.
+
+Theorem C13_defaultable_own_vftable_not_accepted :
+  forall (order : schedule) (ptr : N) (mods : list (path * gmodule)) (st0 st : sstate) 
+      (p : path) (it0 : item) (gd : gitemdef) (td0 : gtypedef) (it : item) (r : resolved)
+      (td : type_def) (s : gstatement) (rest : list gstatement) (gfs : list gfunction),
+    WholeBuild.input_state ptr mods = Ok st0 ->
+    WholeBuild.collision_free (st_reg st0) ->
+    pyxis_resolve order ptr mods = BOk st ->
+    reg_get (st_reg st0) p = Some it0 ->
+    it_state it0 = Unresolved gd ->
+    gi_inner gd = GIType td0 ->
+    reg_get (st_reg st) p = Some it ->
+    it_state it = Resolved r ->
+    rs_inner r = IType td ->
+    gt_stmts td0 = s :: rest ->
+    gs_field s = GVftable gfs ->
+    (forall (fb : region) (bp : path) (itb : item) (rsb : resolved) (tdb : type_def),
+     find r_is_base (td_regions td) = Some fb ->
+     r_type fb = TRaw bp ->
+     reg_get (st_reg st) bp = Some itb ->
+     item_resolved itb = Some rsb -> rs_inner rsb = IType tdb -> td_vftable tdb = None) ->
+    EmitLemmas.has_marker "defaultable" (gt_attrs td0) = true -> False.
+Proof. exact EmitDefault.C13_defaultable_own_vftable_not_accepted. Qed.
+Print Assumptions C13_defaultable_own_vftable_not_accepted.
+
+Theorem C13_default_padding_refuted :
+  EmitShapeExamples.bindo (EmitDefaultExamples.m_struct EmitDefaultExamples.gap_files "Gap")
+      EmitReaders.struct_derives = Some ["Default"%string] /\
+    option_map (map (fun ef : EmitReaders.efield => (EmitReaders.ef_name ef, EmitReaders.ef_ty ef)))
+      (EmitShapeExamples.bindo (EmitDefaultExamples.m_struct EmitDefaultExamples.gap_files "Gap")
+         EmitReaders.struct_fields) =
+    Some
+      [("a"%string, Emit.type_tokens (TRaw ["u8"%string]));
+       ("_field_1"%string, Emit.type_tokens (TArray (TRaw ["u8"%string]) 33));
+       ("b"%string, Emit.type_tokens (TRaw ["u8"%string]));
+       ("_field_23"%string, Emit.type_tokens (TArray (TRaw ["u8"%string]) 1))] /\
+    EmitDefaultExamples.field_verdicts EmitDefaultExamples.gap_files "Gap" =
+    Some
+      [("a"%string, true, true); ("_field_1"%string, false, false); ("b"%string, true, true);
+       ("_field_23"%string, true, true)] /\
+    option_map (EmitDefault.struct_default_ok EmitDefaultExamples.gap_files)
+      (EmitDefaultExamples.m_struct EmitDefaultExamples.gap_files "Gap") = Some false.
+Proof. exact EmitDefaultExamples.C13_default_padding_refuted. Qed.
+Print Assumptions C13_default_padding_refuted.
+
+Theorem C13_default_void_refuted :
+  EmitShapeExamples.bindo (EmitDefaultExamples.m_struct EmitDefaultExamples.vd_files "V")
+      EmitReaders.struct_derives = Some ["Default"%string] /\
+    option_map (map (fun ef : EmitReaders.efield => (EmitReaders.ef_name ef, EmitReaders.ef_ty ef)))
+      (EmitShapeExamples.bindo (EmitDefaultExamples.m_struct EmitDefaultExamples.vd_files "V")
+         EmitReaders.struct_fields) =
+    Some
+      [("a"%string, Emit.type_tokens (TRaw ["u32"%string]));
+       ("v"%string, Emit.type_tokens (TRaw ["void"%string]))] /\
+    EmitDefaultExamples.field_verdicts EmitDefaultExamples.vd_files "V" =
+    Some [("a"%string, true, true); ("v"%string, false, false)] /\
+    option_map (EmitDefault.struct_default_ok EmitDefaultExamples.vd_files)
+      (EmitDefaultExamples.m_struct EmitDefaultExamples.vd_files "V") = Some false.
+Proof. exact EmitDefaultExamples.C13_default_void_refuted. Qed.
+Print Assumptions C13_default_void_refuted.
+
+Theorem C13_copy_refuted :
+  EmitShapeExamples.bindo (EmitDefaultExamples.m_struct EmitDefaultExamples.cp_files "K")
+      EmitReaders.struct_derives = Some ["Copy"%string; "Clone"%string] /\
+    option_map
+      (map
+         (fun ef : EmitReaders.efield =>
+          (EmitReaders.ef_name ef, EmitPaths.type_paths (EmitReaders.ef_ty ef))))
+      (EmitShapeExamples.bindo (EmitDefaultExamples.m_struct EmitDefaultExamples.cp_files "K")
+         EmitReaders.struct_fields) = Some [("c"%string, [["m"%string; "C"%string]])] /\
+    EmitShapeExamples.bindo (EmitDefaultExamples.m_struct EmitDefaultExamples.cp_files "C")
+      EmitReaders.struct_derives = Some ["Clone"%string].
+Proof. exact EmitDefaultExamples.C13_copy_refuted. Qed.
+Print Assumptions C13_copy_refuted.
